@@ -494,8 +494,12 @@ void cmi_dataset_histogram_fill(struct cmi_dataset_histogram *hp,
         else if (xa[ui] > hp->high_lim) {
             bin = hp->num_bins - 1u;
         }
-        else {
+        else if (hp->binsize > 0.0) {
             bin = 1u + (uint16_t)((xa[ui] - hp->low_lim) / hp->binsize);
+        }
+        else {
+            /* Degenerate range (all samples equal, autoscaled): one bin holds all */
+            bin = 1u;
         }
 
         /* Add it to that bin and note the high-water mark */
